@@ -47,7 +47,7 @@ pub fn cases(tier: Tier) -> Vec<Case> {
                     }
                     // other legal shapes of the credential public key
                     if rp == 1 && matches!(counter, 1 | 4) {
-                        for a in 2..5u8 {
+                        for a in 2..6u8 {
                             atts.push(Some((a, 16)));
                         }
                     }
@@ -127,6 +127,13 @@ fn build(c: &Case) -> Result<Built, String> {
             2 => coset::CoseKeyBuilder::new_ec2_pub_key_y_sign(iana::EllipticCurve::P_256, x, y[31] & 1 == 1).algorithm(iana::Algorithm::ES256).build(),
             3 => coset::CoseKeyBuilder::new_okp_key().param(iana::OkpKeyParameter::Crv as i64, Cbor::Integer((iana::EllipticCurve::Ed25519 as i64).into())).param(iana::OkpKeyParameter::X as i64, Cbor::Bytes(x)).algorithm(iana::Algorithm::EdDSA).build(),
             4 => coset::CoseKeyBuilder::new_ec2_pub_key(iana::EllipticCurve::P_256, x, y).algorithm(iana::Algorithm::ES256).key_id(vec![1, 2, 3]).param(-70000, Cbor::Text("vendor".into())).build(),
+            // the same key with its members in another (legal, non-canonical) order: y, x, crv
+            5 => coset::CoseKey {
+                kty: coset::RegisteredLabel::Assigned(iana::KeyType::EC2),
+                alg: Some(coset::RegisteredLabelWithPrivate::Assigned(iana::Algorithm::ES256)),
+                params: vec![(coset::Label::Int(-3), Cbor::Bytes(y)), (coset::Label::Int(-2), Cbor::Bytes(x)), (coset::Label::Int(-1), Cbor::Integer((iana::EllipticCurve::P_256 as i64).into()))],
+                ..Default::default()
+            },
             _ => coset::CoseKeyBuilder::new_ec2_pub_key(iana::EllipticCurve::P_256, x, y).algorithm(iana::Algorithm::ES256).build(),
         };
         let acd = AttestedCredentialData::new(Aaguid::from(ag), cid.clone(), key).map_err(|e| format!("constructor refused a {l}-byte id: {e}"))?;
@@ -455,7 +462,7 @@ pub fn run(ctx: &Ctx) -> Result<Run, String> {
     }
     let mut run = Run::from_stats(
         "exploration",
-        "full product RP id {'', ascii, Unicode, upper-case ascii, android facet with upper case, trailing dot, 33 and 64 bytes long} x counter {None,0,1,2^31,2^32-1} x all 16 subsets of {UP,UV,BE,BS} (through set_flags and by assigning the public field) x attested data {absent, AAGUID 0/pattern x id length 0,1,16,64,255,256,1023,65535, and for 16-byte ids the key shapes compressed EC2 (y as sign bit), OKP, EC2 with key id and an unregistered parameter} x extensions {none, hmac-secret true, hmac-secret-mc bytes, assertion hmac-secret}; each encoding is parsed by an independent byte-level parser, round-tripped, every strict prefix decoded (must be rejected) and every position replaced by 16 boundary values (all 256 for the flags byte and for a representative subset of encodings); thorough adds all two-byte corruptions of the two shortest encodings. plus every sequence of up to 3 (4 thorough) setter calls out of 11 (flags, attested data, make/assert extension outputs incl. None and empty) after the constructor: AT/ED set exactly when the section is present, own encoding decodes to an equal value. Every case is a distinct encoding",
+        "full product RP id {'', ascii, Unicode, upper-case ascii, android facet with upper case, trailing dot, 33 and 64 bytes long} x counter {None,0,1,2^31,2^32-1} x all 16 subsets of {UP,UV,BE,BS} (through set_flags and by assigning the public field) x attested data {absent, AAGUID 0/pattern x id length 0,1,16,64,255,256,1023,65535, and for 16-byte ids the key shapes compressed EC2 (y as sign bit), OKP, EC2 with key id and an unregistered parameter, EC2 with its members in the order y, x, crv} x extensions {none, hmac-secret true, hmac-secret-mc bytes, assertion hmac-secret}; each encoding is parsed by an independent byte-level parser, round-tripped, every strict prefix decoded (must be rejected) and every position replaced by 16 boundary values (all 256 for the flags byte and for a representative subset of encodings); thorough adds all two-byte corruptions of the two shortest encodings. plus every sequence of up to 3 (4 thorough) setter calls out of 11 (flags, attested data, make/assert extension outputs incl. None and empty) after the constructor: AT/ED set exactly when the section is present, own encoding decodes to an equal value. Every case is a distinct encoding",
         true,
         stats,
     );
